@@ -757,6 +757,143 @@ int serve(int req, struct outer *b) {
           probe=[["seed", "alpha", "beta", "gamma", "delta"]])
 
 
+# Python-only shapes: (a) a package tree imported through plain dotted imports whose names overlap on a word boundary
+# (`import pkg.sub` + `import pkg.sub.mod`, used later as pkg.sub.mod.f()): the frontend's import preprocessor rewrites the
+# later lines name by name; (b) dataclass-style classes defining BOTH __init__ and __post_init__, instantiated on a path
+# phase III reaches: both initialisers are queued as callees of the new_object statement.
+_add_file("py_defaults_named", 'pkg/__init__.py', """VERSION = 1
+""")
+_add_file("py_defaults_named", 'pkg/core/__init__.py', """BASE = 0
+""")
+_add_file("py_defaults_named", 'pkg/core/io.py', """def load(p):
+    return p
+""")
+_add_file("py_defaults_named", 'pkg/core/io_utils.py', """def dump(p):
+    return p
+""")
+_add_file("py_defaults_named", 'pkg/sub/__init__.py', """DEFAULT = 'd'
+
+def helper(x):
+    return x
+""")
+_add_file("py_defaults_named", 'pkg/sub/mod.py', """LIMIT = 3
+
+def open_it(x):
+    return x
+
+class Reader:
+    def __init__(self, src):
+        self.src = src
+    def read(self):
+        return self.src
+""")
+_add_file("py_defaults_named", "pkgapp.py", """import os.path
+import pkg.sub
+import pkg.sub.mod
+import pkg.core
+import pkg.core.io
+import pkg.core.io_utils
+
+def use(req):
+    handle = pkg.sub.mod.open_it(pkg.sub.DEFAULT)
+    r = pkg.sub.mod.Reader(req)
+    data = pkg.core.io.load(r.read())
+    out = pkg.core.io_utils.dump(data)
+    n = pkg.sub.mod.LIMIT + pkg.core.BASE
+    sink(out)
+    return pkg.sub.helper(handle)
+
+def serve(req, other):
+    return use(req)
+
+serve(1, 2)
+""")
+_add_file("py_nested_fill", "dc.py", """from dataclasses import dataclass
+
+@dataclass
+class Point:
+    x: int
+    y: int
+
+    def __init__(self, x, y):
+        self.x = x
+        self.y = y
+
+    def __post_init__(self):
+        self.norm = self.x + self.y
+        self.tag = "p"
+
+class Account:
+    def __init__(self, owner, balance=0):
+        self.owner = owner
+        self.balance = balance
+        self.history = []
+
+    def __post_init__(self):
+        self.limit = self.balance + 100
+        self.flags = {"new": True}
+        self.owner_tag = self.owner
+
+class Savings(Account):
+    def __init__(self, owner):
+        self.owner = owner
+        self.rate = 2
+
+    def __post_init__(self):
+        self.bonus = self.rate + 1
+
+def make(req, other):
+    p = Point(req, other)
+    a = Account(req, 5)
+    s = Savings(req)
+    q = Point(1, 2)
+    sink(a.owner)
+    return p.x + q.y + s.rate
+
+def process(req, other):
+    return make(req, other)
+
+process(1, 2)
+""")
+
+
+# PHP: `require` / `require_once` of a VARIABLE that holds one of several file names (one state per name): the required-module
+# states are created per distinct name.
+_add_file("php_service", "loader.php", """<?php
+function pick($mode) {
+    if ($mode == 1) { $f = "lib/alpha_reader.php"; }
+    elseif ($mode == 2) { $f = "lib/beta_writer.php"; }
+    elseif ($mode == 3) { $f = "lib/gamma_store.php"; }
+    else { $f = "lib/delta_cache.php"; }
+    return $f;
+}
+function process($req, $mode) {
+    if ($mode == 1) { $f = "lib/alpha_reader.php"; }
+    elseif ($mode == 2) { $f = "lib/beta_writer.php"; }
+    elseif ($mode == 3) { $f = "lib/gamma_store.php"; }
+    else { $f = "lib/delta_cache.php"; }
+    $m = require $f;
+    $g = pick($mode);
+    $k = require_once $g;
+    sink($req);
+    return $m;
+}
+process(1, 2);
+""")
+_add_file("php_service", 'lib/alpha_reader.php', """<?php
+function alpha_read($x) { return $x; }
+""")
+_add_file("php_service", 'lib/beta_writer.php', """<?php
+function beta_write($x) { return $x; }
+""")
+_add_file("php_service", 'lib/delta_cache.php', """<?php
+function delta_cache($x) { return $x; }
+""")
+_add_file("php_service", 'lib/gamma_store.php', """<?php
+function gamma_store($x) { return $x; }
+""")
+
+
 # ---------------------------------------------------------------------------------------------------
 # seeded generators of name-heavy programs
 
@@ -802,6 +939,8 @@ def gen_wide(lang, rng, n_funcs=14, n_classes=3, n_files=3):
     files = gen(rng, fnames, cnames, fields, methods, keys, calls, chain, n_files)
     rel, text, groups = nested_unit(lang, rng)          # plus one unit of nested-object writers (entry point `serve`)
     files[rel] = text
+    if lang == "python":
+        files.update(pyshapes_files(rng))
     return {"lang": lang, "files": files, "extra": [], "settings": taint_settings(lang), "origin": "generated", "probe_fields": groups}
 
 
@@ -1211,6 +1350,70 @@ def gen_nested(lang, rng, n_units=2):
         files[rel] = text
         groups += g
     return {"lang": lang, "files": files, "extra": [], "settings": taint_settings(lang), "origin": "generated", "probe_fields": groups}
+
+
+# ---------------------------------------------------------------------------------------------------
+# Python-only generated shapes: overlapping dotted imports over a package tree, two-initialiser classes
+
+def pyshapes_files(rng, tag="ps"):
+    """-> {relative path: text}. Entry point: serve(req, other) in <tag>_app.py."""
+    w = lambda: rng.choice(WORDS)
+    root = f"{tag}_{w()}"
+    files = {f"{root}/__init__.py": "VERSION = 1\n"}
+    chains = []
+    used_subs = set()
+    for _ in range(rng.randint(2, 3)):
+        sub = w()
+        while sub in used_subs:
+            sub = w()
+        used_subs.add(sub)
+        leafs = []
+        for _ in range(rng.randint(1, 2)):
+            lf = w()
+            while lf == sub or lf in leafs:
+                lf = w()
+            leafs.append(lf)
+        const = w().upper()
+        files[f"{root}/{sub}/__init__.py"] = f"{const} = '{sub}'\n\ndef helper_{sub}(x):\n    return x\n"
+        for lf in leafs:
+            files[f"{root}/{sub}/{lf}.py"] = (f"LIMIT_{lf.upper()} = 3\n\ndef open_{lf}(x):\n    return x\n\nclass Reader{_cap(lf)}:\n"
+                                              "    def __init__(self, src):\n        self.src = src\n    def read(self):\n        return self.src\n")
+        chains.append((sub, const, leafs))
+    imports, body = ["import os.path"], []
+    names = []
+    for sub, const, leafs in chains:
+        names.append(f"import {root}.{sub}")
+        for lf in leafs:
+            names.append(f"import {root}.{sub}.{lf}")
+    rng.shuffle(names)                  # the import order in the file is part of the program, not of the run
+    imports += names
+    for sub, const, leafs in chains:
+        for lf in leafs:
+            body.append(f"    h_{lf} = {root}.{sub}.{lf}.open_{lf}({root}.{sub}.{const})")
+            body.append(f"    r_{lf} = {root}.{sub}.{lf}.Reader{_cap(lf)}(req)")
+            body.append(f"    n_{lf} = {root}.{sub}.{lf}.LIMIT_{lf.upper()} + {root}.VERSION")
+            body.append(f"    out = {root}.{sub}.helper_{sub}(r_{lf}.read())")
+    # classes with both initialisers
+    classes, makes = [], []
+    for k in range(rng.randint(2, 3)):
+        cn = "Dc" + _cap(w()) + str(k)
+        f_init = _names(rng, rng.randint(2, 3))
+        f_post = [n for n in _names(rng, rng.randint(2, 4)) if n not in f_init]
+        L = [f"class {cn}:", "    def __init__(self, a, b=0):"] + [f"        self.{n} = a" for n in f_init]
+        L += ["", "    def __post_init__(self):"] + [f"        self.{n} = self.{f_init[0]}" if i % 2 == 0 else f"        self.{n} = {i}" for i, n in enumerate(f_post)]
+        classes.append("\n".join(L))
+        makes.append(f"    o{k} = {cn}(req, other)")
+    text = ("\n".join(imports) + "\n\n" + "\n\n".join(classes) + "\n\ndef use(req, other):\n" + "\n".join(body) + "\n" + "\n".join(makes)
+            + "\n    sink(out)\n    return o0\n\ndef serve(req, other):\n    return use(req, other)\n\nserve(1, 2)\n")
+    files[f"{tag}_app.py"] = text
+    return files
+
+
+def gen_pyshapes(rng, n=2):
+    files = {}
+    for k in range(n):
+        files.update(pyshapes_files(rng, tag=f"ps{k}"))
+    return {"lang": "python", "files": files, "extra": [], "settings": taint_settings("python"), "origin": "generated"}
 
 
 # ---------------------------------------------------------------------------------------------------
